@@ -883,6 +883,8 @@ def env_side(rng, perturbed, side):
 
 def gen_plan(run_seed, tier='quick', env=None, kinds=None, shape=None):
     rng = random.Random(run_seed)
+    if shape is None and env is None and rng.random() < (0.004 if tier == 'quick' else 0.02):
+        return long_plan(run_seed, tier)
     perturbed = rng.random() < 0.7
     maxops = 24 if tier == 'quick' else 48
     if shape is None:
@@ -1000,6 +1002,9 @@ def floor_plans(base_seed, tier='quick'):
                                   hist=env_side(rng, True, 'hist'), orac=env_side(rng, True, 'orac'),
                                   disk={'floor.txt': 'STALE ' * 500} if t is cli else {},
                                   tasks=[t], schedule=[0] * len(t['ops'])))
+    # long histories: many repetitions on a tiny model
+    for j, (kind, count) in enumerate([('api', 70), ('api', 140), ('sweep', 66), ('runs', 70)]):
+        plans.append(long_plan(base_seed * 1000003 + 950000 + j, tier, kind, count))
     return plans
 
 
@@ -1058,3 +1063,96 @@ def gen_direct_task(rng, ground='shared_ideal', maxops=20):
                 argv=[], pool=pool, fars=fars, nears=nears, ops=ops, template='direct_' + t,
                 env='ideal' if ground else 'free', features=feats, probes=probes,
                 npulses=npl + 2 * len(wires))
+
+
+# ------------------------------------------------------------- long histories
+
+def tiny_model(rng):
+    """A very small model (4..7 pulses) so that hundreds of operations cost
+    about a second: repetition counts are a dimension of history of their
+    own (counters, doubling flags, bounded caches overflow only after many
+    repetitions)."""
+    m = Model()
+    env = rng.choice(['free', 'free', 'ideal', 'real1'])
+    r = rng.choice([0.001, 0.002, 0.0005])
+    n = rng.randrange(4, 8)
+    L = rng.choice([10.0, 21.414285, 5.0])
+    a = []
+    if env == 'free':
+        o, v = _wire(n, (0, 0, 0), (L, 0, 0), r)
+        m.template = 'tiny_dipole'
+        p1, p2 = (0.0, 0.0, 0.0), (L, 0.0, 0.0)
+    else:
+        o, v = _wire(n, (0, 0, 0), (0, 0, L / 2), r)
+        m.template = 'tiny_monopole'
+        p1, p2 = (0.0, 0.0, 0.0), (0.0, 0.0, L / 2)
+    a += [o, v]
+    m.geo.append(dict(kind='wire', nseg=n, r=r, tag=None, etag=1, p1=p1, p2=p2))
+    m.radii.append(r)
+    m.length = L
+    m.argv_geo = a
+    gen_env(rng, m, env)
+    gen_sources(rng, m)
+    kinds = rng.choice([[], [], ['impedance'], ['skin_c'], ['rlc'], ['insulation'], ['laplace']])
+    gen_loads(rng, m, kinds)
+    return m
+
+
+def gen_long_api_task(rng, cycles):
+    m = tiny_model(rng)
+    pool, probes = gen_pool(rng, m, k=rng.choice([2, 3, 5]))
+    fars = [[[0, 45, 2], [0, 90, 1], None, 0], [[10, 30, 2], [0, 90, 2], 100.0, 1000.0]]
+    nears = [[[1.0, 1.0, 2.0], [1.0, 1.0, 1.0], [1, 1, 2], None]]
+    ops = []
+    st = ApiState()
+    for i in range(cycles):
+        r = rng.random()
+        if r < 0.7:
+            op = ['SET_F', rng.randrange(len(pool))]
+            ops.append(op)
+        ops.append(['COMPUTE'])
+        if rng.random() < 0.1:
+            ops.append(['COMPUTE'])
+        r = rng.random()
+        if r < 0.06:
+            ops += [['FAR', rng.randrange(2)], ['OBS_REPORT', ['far-field', 'far-field-absolute']]]
+        elif r < 0.1:
+            ops += [['NEAR', 0], ['OBS_REPORT', ['near-field']]]
+        else:
+            ops.append(['OBS_NUM'])
+    return dict(kind='api', builder='cli', argv=m.argv(), pool=pool, fars=fars, nears=nears, ops=ops,
+                template=m.template, env=m.env, features=sorted(set(m.features + ['long_history'])),
+                probes=probes, npulses=m.min_pulses() + 2)
+
+
+def gen_long_cli_task(rng, steps, kind):
+    m = tiny_model(rng)
+    f0 = rng.choice([7.0, 14.1, 3.6])
+    base = ['-f', repr(f0)] + m.argv() + ['--theta=0,45,2', '--phi=0,90,1']
+    if rng.random() < 0.3:
+        base += ['--option', 'none']
+    if kind == 'sweep':
+        inc = rng.choice([0.05, 0.01, 0.1])
+        ops = [['SWEEP', base, inc, steps]]
+    else:
+        other = ['-f', repr(f0 * 1.1)] + m.argv() + ['--option', 'none', '--output-cmdline', 'long.txt']
+        ops = []
+        for i in range(steps):
+            ops.append(['RUN', base if i % 2 == 0 or rng.random() < 0.5 else other])
+    return dict(kind='cli', ops=[_copy_op(o) for o in ops], template=m.template, env=m.env,
+                features=sorted(set(m.features + ['long_history'])), probes=[], npulses=m.min_pulses() + 2,
+                pool=[f0])
+
+
+def long_plan(run_seed, tier='quick', kind=None, count=None):
+    rng = random.Random(run_seed)
+    kind = kind or rng.choice(['api', 'api', 'sweep', 'runs'])
+    if kind == 'api':
+        t = gen_long_api_task(rng, count or rng.choice([70, 70, 140, 270]))
+    else:
+        t = gen_long_cli_task(rng, count or rng.choice([66, 70, 130]), kind)
+    perturbed = rng.random() < 0.5
+    return dict(version=1, run_seed=run_seed, tier=tier, long=True,
+                config='perturbed' if perturbed else 'plain',
+                hist=env_side(rng, perturbed, 'hist'), orac=env_side(rng, perturbed, 'orac'),
+                disk={}, tasks=[t], schedule=[0] * len(t['ops']))
